@@ -5,6 +5,7 @@ package dawn
 import (
 	"fmt"
 	"math/rand/v2"
+	"path/filepath"
 	"sort"
 	"strings"
 
@@ -131,6 +132,12 @@ func c06Gen(r *rand.Rand, tier string) any {
 				}
 			}
 		}
+	}
+	if r.IntN(5) == 0 {
+		// a directory link back into the project's own tree, below one of the packages:
+		// package discovery does not follow links
+		pk := pkgs[r.IntN(len(pkgs))]
+		p.Files[filepath.Join(pkgDir(pk), "self")] = linkMark + "."
 	}
 	return &histScenario{Spec: p, Proc: genProc(r), Mode: shape}
 }
